@@ -2,7 +2,7 @@ import re
 
 from . import operator, xlerrors, func_xltypes
 
-CRITERIA_REGEX = r'(\W*)(.*)'
+CRITERIA_REGEX = r'(<=|>=|<>|<|>|=)?(.*)'
 
 CRITERIA_OPERATORS = {
     '<': operator.OP_LT,
@@ -18,7 +18,7 @@ def parse_criteria(criteria):
 
     if isinstance(criteria, (str, func_xltypes.Text)):
         search = re.search(CRITERIA_REGEX, str(criteria)).group
-        str_operator, str_value = search(1), search(2)
+        str_operator, str_value = search(1) or '', search(2)
 
         operator = CRITERIA_OPERATORS.get(str_operator)
         if operator is None:
